@@ -100,6 +100,7 @@ type batchWorld struct {
 	scripts []string // body table (index = body id)
 	bodies  [][]bodyStep
 	nonce   uint64
+	black   *Account // an account the access-control list reports as black-listed (C05)
 }
 
 func newBatchWorld(c *Ctx) (*batchWorld, error) {
